@@ -25,7 +25,7 @@ def run(chk):
     chk.rule('C10-R3', 'prefix sums: gstart[0,:]=0, gstart[1:,c]=Nout[:,c,0].cumsum(); cursors = gstart[tid]; sizes = gstart[-1,c]', 6)
     chk.rule('C10-R4', 'count/fill agreement: each branch sets keep=c and increments counter c-1 once; fill branch c advances cursor c once', 12)
     chk.rule('C10-R5', 'purity: no randomness/time/global state reachable; row values do not mention the thread id', 2)
-    chk.rule('C10-R6', 'fast_concatenate: serial and parallel paths share one index map; block tables tile both inputs; every tid dispatched once', 6)
+    chk.rule('C10-R6', 'fast_concatenate: serial and parallel paths share one index map; block tables tile both inputs; every tid dispatched once', 8)
     chk.assume('floor(T*N1/(N1+N2)) <= T-1 for N2 > 0 (real arithmetic): at least one thread serves the second array')
     chk.assume('bitwise float equality follows from purity (no cross-row arithmetic under fastmath) and is not separately decided')
     for name in ('gen_cent', 'gen_sats'):
@@ -181,6 +181,87 @@ def concat(chk, R6='C10-R6', R1='C10-R1'):
         why = '; '.join(t for _, t in problems[:2]) if problems else f'pieces {sorted(map(repr, ps))}: need {out_name}[0:N1] <- {a1}[k] and {out_name}[N1:N1+N2] <- {a2}[k - N1]'
         chk.check(ok, R6, GH, 'fast_concatenate', f'{name} path: out[0:N1] = a1, out[N1:N1+N2] = a2 (every element once, same index map)',
                   f'{sorted(map(repr, ps))}', f'{name} path: {why}', node=problems[0][0] if problems else node)
+    # every block table needs at least one block, otherwise its interval is not covered at all: K1 = max(1, .) >= 1 by form;
+    # K2 = Nthread - K1 >= 1 needs K1 <= Nthread - 1, i.e. the share of array1 rounded DOWN (N2 >= 1 makes the share < Nthread)
+    from ..core.poly import Poly
+    tabs = {k: copymap.table_of(v, defs) for k, v in defs.items()}
+    tabs = {k: v for k, v in tabs.items() if v is not None}
+    for T, (lo_, hi_, K, c_) in sorted(tabs.items()):
+        ok, why = _blocks_at_least_one(K, defs, nt, a1, a2)
+        chk.check(ok, R6, GH, 'fast_concatenate', f'block table {T} has at least one block', f'{K!r}: {why}',
+                  f'table {T} has {K!r} blocks, which can be 0: {why} -- that array would not be copied at all', node=fn)
     # thread split: Nthread1 >= 1 and Nthread2 = Nthread - Nthread1 (the dispatch intervals are checked against the tables above)
     rets = [unparse(n.value) for n in walk_no_nested(fn) if isinstance(n, ast.Return)]
     chk.check(rets.count(out_name) >= 1 and set(rets) <= {a1, a2, out_name}, R6, GH, 'fast_concatenate', 'returns the assembled array', '', f'returns {rets}', node=fn, nontrivial=False)
+
+
+def _blocks_at_least_one(K, defs, nt, a1, a2):
+    """K (a Lin over the function's names, definitions already resolved) >= 1 ?  Understands
+    K = X with X = max(1, ...)  and  K = Nthread - X with X = max(1, floor-rounded proportional share of Nthread)."""
+    from ..core import copymap
+    from ..core.lin import Lin
+    from ..core.poly import Poly
+    syms = sorted(K.syms())
+    # find the name whose definition is max(1, E)
+    share = None
+    for nm, v in defs.items():
+        if isinstance(v, ast.Call) and dotted(v.func) == 'max' and len(v.args) == 2 and any(isinstance(a, ast.Constant) and a.value == 1 for a in v.args):
+            share = (nm, [a for a in v.args if not (isinstance(a, ast.Constant) and a.value == 1)][0])
+    if share is None:
+        return False, 'no max(1, share) definition found'
+    nm, E = share
+    if K == Lin.sym(nm):
+        return True, f'{nm} = max(1, ...)'
+    if not (K == Lin.sym(nt) - Lin.sym(nm)):
+        return False, f'not of the form {nt} - {nm}'
+    # strip the rounding
+    rounding = []
+    x = E
+    while True:
+        if isinstance(x, ast.Call) and len(x.args) == 1 and dotted(x.func) in ('int', 'np.int64', 'np.floor', 'math.floor', 'np.trunc', 'np.rint', 'np.round', 'round', 'np.ceil', 'math.ceil'):
+            rounding.append(dotted(x.func))
+            x = x.args[0]
+            continue
+        break
+    floordiv = isinstance(x, ast.BinOp) and isinstance(x.op, ast.FloorDiv)
+    if floordiv:
+        rounding.append('//')
+        num, den = x.left, x.right
+    elif isinstance(x, ast.BinOp) and isinstance(x.op, ast.Div):
+        num, den = x.left, x.right
+    else:
+        return False, f'share {unparse(E)} is not a quotient'
+
+    def poly(e):
+        if isinstance(e, ast.Name):
+            d = defs.get(e.id)
+            if d is not None and isinstance(d, ast.Call) and dotted(d.func) == 'len':
+                return Poly.sym(unparse(d))
+            return Poly.sym(e.id)
+        if isinstance(e, ast.Constant) and type(e.value) is int:
+            return Poly.const(e.value)
+        if isinstance(e, ast.Call) and dotted(e.func) == 'len':
+            return Poly.sym(unparse(e))
+        if isinstance(e, ast.BinOp) and isinstance(e.op, (ast.Add, ast.Sub, ast.Mult)):
+            a, b = poly(e.left), poly(e.right)
+            if a is None or b is None:
+                return None
+            return a + b if isinstance(e.op, ast.Add) else (a - b if isinstance(e.op, ast.Sub) else a * b)
+        if isinstance(e, ast.BinOp) and isinstance(e.op, ast.Div):
+            a, b = poly(e.left), poly(e.right)
+            if a is None or b is None or len(b.t) != 1:
+                return None
+            return a / b
+        return None
+    # num / den must equal Nthread * L1 / (L1 + L2): cross-multiplied polynomial identity
+    L1, L2, N = Poly.sym(f'len({a1})'), Poly.sym(f'len({a2})'), Poly.sym(nt)
+    # a quotient like Nthread * N1 / (N1 + N2): numerator may itself contain the division
+    if isinstance(num, ast.BinOp) and isinstance(num.op, ast.Div):
+        return False, 'nested quotient'
+    pn, pd = poly(num), poly(den)
+    if pn is None or pd is None or not (pn * (L1 + L2) == N * L1 * pd):
+        return False, f'share {unparse(E)} is not {nt} * len({a1}) / (len({a1}) + len({a2}))'
+    up = [r for r in rounding if r in ('np.rint', 'np.round', 'round', 'np.ceil', 'math.ceil')]
+    if up or not rounding:
+        return False, (f'the share of {a1} is rounded with {up or "nothing"}: it can reach {nt} (e.g. {nt} = 2, len({a1}) = 3, len({a2}) = 1), leaving no thread and no block for {a2}')
+    return True, f'{nm} = max(1, floor share) <= {nt} - 1 because len({a2}) >= 1 and {nt} >= 2 on this path'
